@@ -201,3 +201,139 @@ Proof.
   - right. destruct Hm as [(_ & ->)|(X & _)]; [|discriminate X]. split; [exact A|].
     exists slot. split; [exact Hs0|]. split; [eapply extends_nth; eauto|exact B].
 Qed.
+
+(* ------------------------------------------------------------------ round 3: the table section itself and embedded label addresses *)
+Lemma table_bytes_cell slots : forall i a k, nth_error slots i = Some a -> 0 <= k < 8 ->
+  cell (table_bytes slots) (8 * Z.of_nat i + k) = cell (le_bytes 8 a) k.
+Proof.
+  induction slots as [|x t IH]; intros i a k Hi Hk; [destruct i; discriminate|].
+  cbn [table_bytes flat_map]. fold (table_bytes t). unfold cell.
+  destruct i as [|i]; simpl in Hi.
+  - injection Hi as ->. rewrite app_nth1 by (rewrite le_bytes_length; lia). f_equal; lia.
+  - rewrite app_nth2 by (rewrite le_bytes_length; lia). rewrite le_bytes_length.
+    replace (Z.to_nat (8 * Z.of_nat (S i) + k) - 8)%nat with (Z.to_nat (8 * Z.of_nat i + k)) by lia.
+    apply (IH i a k Hi Hk).
+Qed.
+
+(* everything relocate_holder did, as facts *)
+Lemma jit_reloc_unfold st calls base fill final img h2 :
+  wf_holder (jh st) -> data_len_ok (jh st) ->
+  (forall h1, flatten (jh st) = (EOk, h1) -> NoDup (map sid h1) /\ (forall s, In s h1 -> 0 <= sid s)) ->
+  jit_add_reloc st calls base fill = (JOk, final, img, h2) ->
+  exists h1 text t atoff reserved last r,
+    flatten (jh st) = (EOk, h1) /\ by_id h1 0 = Some text /\ In text h1 /\ sid text = 0 /\
+    Z.of_nat (length (sdata text)) = sbsize text /\
+    forallb (site_in_bounds text) calls = true /\
+    (match jtab st with
+     | Some t0 => match by_id h1 t0 with Some ts => (t0, soff ts, svsize ts, is_last h1 t0) | None => (-1, 0, 0, false) end
+     | None => (-1, 0, 0, false) end) = (t, atoff, reserved, last) /\
+    relocate base REG_SIZE atoff reserved last (map (site_entry h1 (soff text)) calls) = inl r /\
+    rr_table_size r <= reserved /\
+    h2 = map (fun s => if sid s =? t then set_sizes s (rr_table_size r) (if last then rr_table_size r else svsize s) (table_bytes (rr_table r))
+                       else if sid s =? 0 then set_data s (patch_all (sdata s) (map (site_entry h1 (soff text)) calls) (rr_outs r)) else s) h1 /\
+    (forall s, In s h2 -> forall k, 0 <= k < sbsize s -> soff s + k < final -> cell (flat img) (soff s + k) = cell (sdata s) k).
+Proof.
+  intros Hwf Hdl Hid E.
+  destruct (jit_add_reloc_image st calls base fill final img h2 Hwf Hdl Hid E) as (h1 & red & Ef & Er & Efin & Hoff & Hcells & _).
+  destruct (final_copy_ready (jh st) h1 Hwf Hdl Ef) as (Hd & _).
+  unfold relocate_holder in Er.
+  destruct (by_id h1 0) as [text|] eqn:Et; [|discriminate].
+  destruct (forallb (site_in_bounds text) calls) eqn:Eb; cbn [negb] in Er; [|discriminate].
+  destruct (match jtab st with
+            | Some t0 => match by_id h1 t0 with Some ts => (t0, soff ts, svsize ts, is_last h1 t0) | None => (-1, 0, 0, false) end
+            | None => (-1, 0, 0, false) end) as [[[t atoff] reserved] last] eqn:Esel.
+  destruct (relocate base REG_SIZE atoff reserved last (map (site_entry h1 (soff text)) calls)) as [r|x] eqn:Erel; [|discriminate].
+  destruct (Z.ltb_spec reserved (rr_table_size r)) as [|Hfit]; [discriminate|]. injection Er as Eh2 _.
+  destruct (by_id_in _ _ _ Et) as (Esid & Hin).
+  rewrite Forall_forall in Hd. destruct (Hd text Hin) as (Hlen & _).
+  exists h1, text, t, atoff, reserved, last, r. repeat split; auto.
+Qed.
+
+(* the installed address table: slot i of the relocated table is installed, little endian, at table offset + 8 i *)
+Theorem installed_table_slot st calls base fill final img h2 :
+  wf_holder (jh st) -> data_len_ok (jh st) ->
+  (forall h1, flatten (jh st) = (EOk, h1) -> NoDup (map sid h1) /\ (forall s, In s h1 -> 0 <= sid s)) ->
+  jit_add_reloc st calls base fill = (JOk, final, img, h2) ->
+  forall t, jtab st = Some t ->
+  exists h1 text atoff reserved last r,
+    flatten (jh st) = (EOk, h1) /\ by_id h1 0 = Some text /\
+    relocate base REG_SIZE atoff reserved last (map (site_entry h1 (soff text)) calls) = inl r /\
+    (forall ts, by_id h1 t = Some ts -> atoff = soff ts /\
+       forall i a k, nth_error (rr_table r) i = Some a -> 0 <= k < 8 -> soff ts + 8 * Z.of_nat i + k < final ->
+         cell (flat img) (soff ts + 8 * Z.of_nat i + k) = cell (le_bytes 8 a) k).
+Proof.
+  intros Hwf Hdl Hid E t Ht.
+  destruct (jit_reloc_unfold st calls base fill final img h2 Hwf Hdl Hid E)
+    as (h1 & text & t' & atoff & reserved & last & r & Ef & Et & Hin & Esid & Hlen & Eb & Esel & Erel & Hfit & Eh2 & Hcells).
+  exists h1, text, atoff, reserved, last, r. repeat split; auto.
+  - rewrite Ht, H in Esel. injection Esel as _ <- _ _. reflexivity.
+  - intros i a k Hi Hk Hf. rewrite Ht, H in Esel. injection Esel as <- _ _ _.
+    destruct (by_id_in _ _ _ H) as (Ets & Hints).
+    set (ts2 := set_sizes ts (rr_table_size r) (if last then rr_table_size r else svsize ts) (table_bytes (rr_table r))).
+    assert (Hin2 : In ts2 h2).
+    { rewrite Eh2. apply in_map_iff. exists ts. split; [|exact Hints]. rewrite Ets, Z.eqb_refl. reflexivity. }
+    destruct (relocate_table _ _ _ _ _ _ _ Erel) as (_ & Esize & _). unfold zlen, REG_SIZE in Esize.
+    assert (Hi' : (i < length (rr_table r))%nat) by (apply nth_error_Some; congruence).
+    specialize (Hcells ts2 Hin2 (8 * Z.of_nat i + k)).
+    assert (Hb2 : sbsize ts2 = rr_table_size r) by reflexivity. assert (Ho2 : soff ts2 = soff ts) by reflexivity.
+    rewrite Hb2, Ho2 in Hcells. replace (soff ts + (8 * Z.of_nat i + k)) with (soff ts + 8 * Z.of_nat i + k) in Hcells by lia.
+    rewrite Hcells by lia. change (sdata ts2) with (table_bytes (rr_table r)). apply table_bytes_cell; assumption.
+Qed.
+
+(* an embedded label address (C10's SAbs site: embed_label of 8 bytes in .text, RelToAbs): the installed 8 bytes are the relocated word,
+   which is base + target section offset + label offset *)
+Theorem installed_abs_site st calls base fill final img h2 i pos target loff :
+  wf_holder (jh st) -> data_len_ok (jh st) ->
+  (forall h1, flatten (jh st) = (EOk, h1) -> NoDup (map sid h1) /\ (forall s, In s h1 -> 0 <= sid s)) ->
+  jtab st <> Some 0 -> (forall h off, sites_disjoint (map (site_entry h off) calls)) ->
+  jit_add_reloc st calls base fill = (JOk, final, img, h2) ->
+  nth_error calls i = Some (SAbs pos target loff) ->
+  exists h1 text ts w,
+    flatten (jh st) = (EOk, h1) /\ by_id h1 0 = Some text /\ by_id h1 target = Some ts /\
+    w = (loff + base + soff ts) mod 2 ^ 64 /\
+    (forall k, 0 <= k < 8 -> soff text + pos + k < final -> cell (flat img) (soff text + pos + k) = cell (le_bytes 8 w) k).
+Proof.
+  intros Hwf Hdl Hid Htab Hcd E Hi.
+  destruct (jit_reloc_unfold st calls base fill final img h2 Hwf Hdl Hid E)
+    as (h1 & text & t & atoff & reserved & last & r & Ef & Et & Hin & Esid & Hlen & Eb & Esel & Erel & Hfit & Eh2 & Hcells).
+  set (es := map (site_entry h1 (soff text)) calls) in *.
+  assert (Ht0 : t <> 0).
+  { destruct (jtab st) as [t0|]; [destruct (by_id h1 t0); injection Esel as <- _ _ _; [congruence|lia]|injection Esel as <- _ _ _; lia]. }
+  destruct (relocate_table _ _ _ _ _ _ _ Erel) as (_ & _ & _ & Hlo).
+  assert (Hei : nth_error es i = Some (site_entry h1 (soff text) (SAbs pos target loff))) by (unfold es; rewrite nth_error_map, Hi; reflexivity).
+  assert (Hoi : exists o, nth_error (rr_outs r) i = Some o).
+  { destruct (nth_error (rr_outs r) i) as [o|] eqn:Eo; [eauto|]. apply nth_error_None in Eo.
+    assert (i < length es)%nat by (apply nth_error_Some; congruence). lia. }
+  destruct Hoi as (o & Ho).
+  (* the entry was relocated by relocate_entry: a RelToAbs entry needs a target section *)
+  assert (Hre : exists s1 s2, relocate_entry base REG_SIZE atoff s1 (site_entry h1 (soff text) (SAbs pos target loff)) = inl (o, s2)).
+  { unfold relocate in Erel. destruct (relocate_all base REG_SIZE atoff [] es) as [[os slots]|x] eqn:Ea; [|discriminate].
+    injection Erel as <-. cbn [rr_outs] in Ho. destruct (relocate_all_sound _ _ _ _ _ _ _ Ea) as (_ & _ & _ & Hall).
+    destruct (Hall i _ o Hei Ho) as (s1 & s2 & H & _). eauto. }
+  destruct Hre as (s1 & s2 & Hre).
+  destruct (by_id h1 target) as [ts|] eqn:Ets.
+  2:{ exfalso. unfold relocate_entry, site_entry in Hre. cbn [e_kind] in Hre. rewrite Ets in Hre. discriminate. }
+  assert (Hk : e_kind (site_entry h1 (soff text) (SAbs pos target loff)) = RRelToAbs (Some (soff ts))) by (cbn [site_entry e_kind]; rewrite Ets; reflexivity).
+  destruct (reloc_abs_exact base REG_SIZE atoff s1 _ o s2 Hre (soff ts) 8 Hk eq_refl ltac:(tauto) eq_refl) as (Hw & _).
+  cbn [site_entry e_payload] in Hw.
+  set (text2 := set_data text (patch_all (sdata text) es (rr_outs r))).
+  assert (Hin2 : In text2 h2).
+  { rewrite Eh2. apply in_map_iff. exists text. split; [|exact Hin].
+    replace (sid text =? t) with false by (symmetry; apply Z.eqb_neq; lia).
+    replace (sid text =? 0) with true by (symmetry; apply Z.eqb_eq; exact Esid). reflexivity. }
+  assert (Hwfs : forall e', In e' es -> site_wf (sdata text) e').
+  { intros e' He'. unfold es in He'. apply in_map_iff in He'. destruct He' as (c & <- & Hc).
+    rewrite forallb_forall in Eb. specialize (Eb c Hc). unfold site_in_bounds in Eb.
+    apply andb_true_iff in Eb. destruct Eb as (Eb1 & E3). apply andb_true_iff in Eb1. destruct Eb1 as (E1 & E2).
+    apply Z.leb_le in E1, E3. apply Z.ltb_lt in E2.
+    destruct c; unfold site_wf, site_hi, site_entry, site_pos, site_len, CALL_LEN, ABS_LEN in *; cbn [e_off e_lead e_fmt vsize sfmt ufmt]; lia. }
+  destruct (patch_all_site es (rr_outs r) (sdata text) i _ o Hwfs (Hcd _ _) Hei Ho) as (PW & _).
+  cbn [site_entry e_off e_lead e_fmt vsize ufmt] in PW.
+  destruct (Hwfs _ (nth_error_In _ _ Hei)) as (S2 & _ & S3). unfold site_hi in S3. cbn [site_entry e_off e_lead e_fmt vsize ufmt] in S2, S3.
+  exists h1, text, ts, (o_word o). repeat split; auto.
+  intros k Hk8 Hf. specialize (Hcells text2 Hin2 (pos + k)).
+  assert (Hb2 : sbsize text2 = sbsize text) by reflexivity. assert (Ho2 : soff text2 = soff text) by reflexivity.
+  rewrite Hb2, Ho2 in Hcells. replace (soff text + (pos + k)) with (soff text + pos + k) in Hcells by lia.
+  rewrite Hcells by lia. change (sdata text2) with (patch_all (sdata text) es (rr_outs r)).
+  specialize (PW k ltac:(lia)). replace (pos + 0 + k) with (pos + k) in PW by lia. exact PW.
+Qed.
